@@ -9,6 +9,7 @@ CONSTANTS
   WN = 3
   WithExpiry = FALSE
   WithClose = FALSE
+  QueueGuardedClose = TRUE
   AtomicExpiry = TRUE
   NotifyOnExit = "panic"
 INVARIANTS Inv_AtMostOnce Inv_RejectedNeverRun Inv_MaxConcurrent Inv_Counts Inv_HandlerOnlyJobPanics
